@@ -27,7 +27,8 @@ REQUIRED = ["op.scenario.remove_lanelet", "op.scenario.remove_lanelet-list", "op
             "op.scenario.remove_intersection", "op.cutout.shape", "op.cutout.types", "op.cutout.both",
             "op.cutout.list", "removed-lanelet-was-referenced-by-intersection", "removed-lanelet-had-shared-sign",
             "removed-sign-was-in-stop-line", "crossing-removed",
-            "incoming-relation-between-survivors.successors_right", "incoming-relation-between-survivors.successors_left"]
+            "incoming-relation-between-survivors.successors_right", "incoming-relation-between-survivors.successors_left",
+            "cutout-shape.group", "cutout-shape.polygon"]
 ASSUMPTIONS = ["'left_of' between incomings, first occurrences of signs and areas are not in the statement's list",
                "for cut-outs the statement does not fix which incoming elements survive; only their content is judged"]
 SHARDS = {"quick": 4, "thorough": 16}
@@ -336,6 +337,21 @@ def run(ctx):
                         shape = Rectangle(rng.choice([2.0, 6.0, 14.0]), rng.choice([2.0, 8.0]), np.array(
                             [c[0] + lattice.q(rng, -2, 2), c[1] + lattice.q(rng, -2, 2)]), 0.0) if rng.random() < 0.7 \
                             else Circle(rng.choice([2.0, 6.0]), np.array([c[0], c[1]]))
+                        r_ = rng.random()
+                        if r_ < 0.2:
+                            from commonroad.geometry.shape import Polygon
+                            shape = Polygon(np.array([[c[0] - 3.0, c[1] - 1.0], [c[0] + 4.0, c[1] - 1.0],
+                                                      [c[0] + 0.5, c[1] + 6.0]]))
+                            ctx.feature("cutout-shape.polygon")
+                        elif r_ < 0.4 and isinstance(shape, Rectangle):
+                            # a shape group is the union of its members (second member far away or on another lanelet)
+                            from commonroad.geometry.shape import ShapeGroup
+                            lb = net.find_lanelet_by_id(rng.choice(lids))
+                            c2 = lb.center_vertices[0]
+                            shape = ShapeGroup([shape, Rectangle(2.0, 2.0, np.array([c2[0] + lattice.q(rng, -1, 1),
+                                                                                    c2[1] + lattice.q(rng, -1, 1)]), 0.0)
+                                                if rng.random() < 0.6 else Rectangle(1.0, 1.0, np.array([5e3, 5e3]), 0.0)])
+                            ctx.feature("cutout-shape.group")
                     if op in ("cutout.types", "cutout.both"):
                         types = set(rng.sample([LaneletType.URBAN, LaneletType.HIGHWAY, LaneletType.SIDEWALK,
                                                 LaneletType.CROSSWALK, LaneletType.BUS_LANE], rng.randint(1, 2)))
